@@ -625,7 +625,10 @@ PROPS = {
         "counts": counts_for("C04"),
         "samples": ["Server::process / every unwrap, index, cast and arithmetic operation / panic-freedom for an arbitrary transport and Application",
                     "Request::cursor_read / termination / decreases rem(old(cursor)).len()"],
-        "assumptions": ["stack depth of the per-header recursion in Request::cursor_read is not expressible (termination is proved, a stack bound is not): with the default 10000-byte request buffer the depth stays below 5000 frames, which fits the 2 MiB worker stack in optimised builds (probed on every C20 run: case c20_stack_request_within_default_buffer must not fire; an unoptimised debug build overflows at about 2000 header lines); a configured buffer of 40 KB or more makes the overflow reachable from the network (known finding listed under C20)"],
+        "assumptions": ["stack depth of the per-header recursion in Request::cursor_read is not expressible (termination is proved, a stack bound is not): with the default 10000-byte request buffer the depth stays below 5000 frames, which fits the 2 MiB worker stack in optimised builds (probed on every C20 run: case c20_stack_request_within_default_buffer must not fire; an unoptimised debug build overflows at about 2000 header lines); a configured buffer of 40 KB or more makes the overflow reachable from the network (known finding listed under C20)",
+                        "the url-build-parse dependency is NOT total: parse_url unwraps a failed port number. Its shim carries the precondition dep_url_safe (the text of the target before its first '/' holds no ':'), which URL::parse_request_target establishes and every other caller proves; read off the dependency's source and conformance-tested both ways (no panic inside, the documented panic outside). url-search-params and the file-ext functions on the request path were read and are total",
+                        "CONFIGURATION assumption: get_request_allocation_size() is assumed to return 0..=usize::MAX; an operator who configures a NEGATIVE request buffer size makes every connection panic at the buffer allocation (outside this property's quantifier - client bytes and handlers -, inside C12, which is not claimed)",
+                        "C10 - C04 interplay: Server::process is generic in the Application; what is proved is that it forwards the application's response unchanged and that the default App produces the header frame"],
     },
     "C10": {
         "units": ["header_list", "cors", "server", "app", "controllers", "forms", "static", "response_gen", "request_parse"],
